@@ -1348,3 +1348,96 @@ def check_C14(in_view, lit_view, enabled):
         if not used[i]:
             out.append(Violation('C14', 'extra/entry-without-literal', True, 'value %s' % (en['value'],)))
     return out
+
+
+# ------------------------------------------------------------------ C01: behavioural equivalence (evaluation-order semantics)
+
+def paired_exprs(a, b, acc, where=''):
+    """walk an input and an output statement view in parallel and collect the expression pairs of corresponding slots"""
+    if isinstance(a, list) and isinstance(b, list):
+        b2 = [x for x in b if not (isinstance(x, dict) and (is_injected_let(x) is not None or is_prologue_stmt(x)))]
+        if len(a) != len(b2):
+            acc.append(('structure', where, None, None))
+            return
+        for i, (x, y) in enumerate(zip(a, b2)):
+            paired_exprs(x, y, acc, '%s[%d]' % (where, i))
+        return
+    if not isinstance(a, dict) or not isinstance(b, dict):
+        return
+    if is_lazy(a) or is_lazy(b):
+        return
+    if a.get('_t') == 'Expr' and b.get('_t') == 'Expr':
+        acc.append(('expr', where, a, b))
+        return
+    if a.get('_t') != b.get('_t') or a.get('_v') != b.get('_v'):
+        acc.append(('structure', where, None, None))
+        return
+    for k in a:
+        if k in ('span', '_uid', '_t', '_v', 'ctxt'):
+            continue
+        if k in b:
+            paired_exprs(a[k], b[k], acc, where + '.' + (k if k != '_0' else (a.get('_v') or '0')))
+
+
+def effectful_member_target(assign):
+    tgt = assign['left']
+    if is_lazy(tgt) or tgt.get('_v') != 'Simple' or is_lazy(tgt['_0']) or tgt['_0'].get('_v') != 'Member':
+        return False
+    m = tgt['_0']['_0']
+    simple_obj = (not is_lazy(m['obj'])) and kind(m['obj']) in ('Ident', 'This')
+    pr = m['prop']
+    simple_prop = (not is_lazy(pr)) and (pr.get('_v') == 'Ident' or (pr.get('_v') == 'Computed' and not is_lazy(pr['_0']['expr']) and kind(pr['_0']['expr']) in ('Ident', 'Lit')))
+    return not (simple_obj and simple_prop)
+
+
+def reflective_on_plain_path(call):
+    c = call['callee']
+    if is_lazy(c) or c.get('_v') != 'Expr' or kind(c['_0']) != 'Member':
+        return False
+    m = payload(c['_0'])
+    pr = m['prop']
+    if is_lazy(pr) or pr.get('_v') != 'Ident':
+        return False
+    if leaf_eq(pr['_0']['sym'], 'call') is False and leaf_eq(pr['_0']['sym'], 'apply') is False:
+        return False
+    cur = m['obj']
+    n = 0
+    while not is_lazy(cur) and kind(cur) == 'Member':
+        p2 = payload(cur)['prop']
+        if is_lazy(p2) or p2.get('_v') != 'Ident':
+            return False
+        if n >= 1 and leaf_eq(p2['_0']['sym'], 'prototype') is True:
+            return False
+        cur = payload(cur)['obj']
+        n += 1
+    return n >= 1 and not is_lazy(cur) and kind(cur) == 'Ident'
+
+
+def check_C01(in_view, out_view):
+    import jsorder
+    out = []
+    pairs = []
+    paired_exprs(in_view, out_view, pairs)
+    seen = set()
+    for what, where, a, b in pairs:
+        if what == 'structure':
+            continue        # structural differences are C02's business
+        try:
+            diffs = jsorder.compare(a, b)
+        except jsorder.Unsupported as e:
+            raise ShapeError('jsorder: %s' % e)
+        for role, cond, detail in diffs:
+            ctxkind = kind(a)
+            r = 'behaviour/%s:%s' % (role, ctxkind)
+            if ctxkind == 'Call' and reflective_on_plain_path(payload(a)):
+                # `p.q.m.call(thisArg, ..)` (not a `.prototype.` path): the path is read after the this-argument / arguments
+                r = 'behaviour/call-apply-target-path-read-after-arguments'
+            if ctxkind == 'Assign' and effectful_member_target(payload(a)) and leaf_eq(payload(a)['op']['_d'], ADD_ASSIGN) is not False:
+                # `o().p += s` / `a[i++] += s`: the lowering `T = hook(T + s, ..)` clones the target expression
+                r = 'behaviour/add-assign-target-evaluated-twice'
+                cond = conj([cond, leaf_eq(payload(a)['op']['_d'], ADD_ASSIGN)])
+            if (r, str(cond)) in seen:
+                continue
+            seen.add((r, str(cond)))
+            out.append(Violation('C01', r, cond, detail))
+    return out
